@@ -9,10 +9,12 @@ package vault
 // the way an operator does (sys/mounts/<m>/tune options version=2). The
 // background conversion is observed through the probe store:
 //
-//   fault-free   the conversion's storage operations are counted (operations of
-//                untagged goroutines under the mount's storage prefix, plus
-//                transaction begin/commit of untagged goroutines); afterwards
-//                every original value must be version 1 of its key
+//   fault-free   the conversion's storage operations are counted (every operation
+//                performed on the conversion goroutine, recognised by its function
+//                on the call stack; fallback: operations of untagged goroutines
+//                under the mount's storage prefix plus untagged transaction
+//                begin/commit); afterwards every original value must be version 1
+//                of its key
 //   crash        for every prefix of the durable writes made since the tune
 //                request started, a second core is booted on a store holding
 //                exactly that prefix (process crash), and once the mount serves
@@ -32,6 +34,7 @@ package vault
 
 import (
 	"fmt"
+	"runtime"
 	"sort"
 	"strconv"
 	"strings"
@@ -130,12 +133,36 @@ func c14upTune(e *c14Env) (*logical.Response, error) {
 		Data: map[string]any{"options": map[string]any{"version": "2"}}})
 }
 
-// c14upIsUpgradeOp selects the storage operations of background goroutines on
-// the mount's storage (every request of the harness is tagged).
-func c14upIsUpgradeOp(prefix string) func(kit.Event) bool {
+// c14upOnConversionGoroutine reports whether the calling goroutine is the
+// background conversion started by versionedKVBackend.Upgrade (probe predicates
+// run on the goroutine that performs the storage operation).
+func c14upOnConversionGoroutine() bool {
+	var pcs [192]uintptr
+	n := runtime.Callers(2, pcs[:])
+	frames := runtime.CallersFrames(pcs[:n])
+	for {
+		f, more := frames.Next()
+		if strings.Contains(f.Function, "kv.(*versionedKVBackend).Upgrade.") {
+			return true
+		}
+		if !more {
+			return false
+		}
+	}
+}
+
+// c14upIsUpgradeOp selects the storage operations of the conversion. byGoroutine:
+// every operation performed on the conversion goroutine (precise). Otherwise
+// (fallback when the goroutine cannot be recognised): operations of untagged
+// goroutines under the mount's storage prefix and untagged transaction
+// begin/commit (every request of the harness is tagged).
+func c14upIsUpgradeOp(prefix string, byGoroutine bool) func(kit.Event) bool {
 	return func(ev kit.Event) bool {
 		if ev.Tag != "" {
 			return false
+		}
+		if byGoroutine {
+			return c14upOnConversionGoroutine()
 		}
 		if ev.Key == "" {
 			return ev.Op == "begin" || ev.Op == "beginro" || ev.Op == "commit"
@@ -674,7 +701,7 @@ func TestVerif_C14_Upgrade(t *testing.T) {
 	if oc := kit.OnlyCase(); oc != "" {
 		nshards = 1
 	}
-	r := kit.NewResult(t, "c14-upgrade", seed, "a non-versioned kv mount holding a generated set of nested keys is switched to version 2 through sys/mounts/<m>/tune; per (key set, store kind): the storage operations of the background conversion are counted in a fault-free run (untagged operations under the mount's storage prefix and untagged transaction begin/commit), the store is crash-restarted at every prefix of its durable writes, and for every operation index i a fresh instance runs with operation i failing once, followed by a seeded client sequence, a restart, a bounded wait for service, a read-back of all keys/versions/metadata and further writes; every acknowledged write must have the next consecutive version and be returned by all later reads, every pre-switch value must be version 1; non-trivial = the fault fired; distinct by (store kind, failed operation kind, key class, in/outside a transaction, whether un-converted keys remained)")
+	r := kit.NewResult(t, "c14-upgrade", seed, "a non-versioned kv mount holding a generated set of nested keys is switched to version 2 through sys/mounts/<m>/tune; per (key set, store kind): the storage operations of the background conversion are counted in a fault-free run (all operations performed on the conversion goroutine, incl. transaction begin/commit), the store is crash-restarted at every prefix of its durable writes, and for every operation index i a fresh instance runs with operation i failing once, followed by a seeded client sequence, a restart, a bounded wait for service, a read-back of all keys/versions/metadata and further writes; every acknowledged write must have the next consecutive version and be returned by all later reads, every pre-switch value must be version 1; non-trivial = the fault fired; distinct by (store kind, failed operation kind, key class, in/outside a transaction, whether un-converted keys remained)")
 	defer r.Write(t)
 	nSets := kit.N(1, 6)
 	for ksi := 0; ksi < nSets; ksi++ {
@@ -710,7 +737,15 @@ func c14upKeySet(t *testing.T, r *kit.Result, seed int64, ksi int, tx bool, ks c
 
 	// ---- fault-free run: count the conversion's storage operations, keep the journal
 	e := c14upBoot(t, tx, ks)
-	match := c14upIsUpgradeOp(e.prefix)
+	match := c14upIsUpgradeOp(e.prefix, false)
+	onConv := c14upIsUpgradeOp(e.prefix, true)
+	var convOps []kit.Event
+	e.v.Probe.FailNth(func(ev kit.Event) bool { // never fires: records the conversion goroutine's operations
+		if onConv(ev) {
+			convOps = append(convOps, ev)
+		}
+		return false
+	}, 1)
 	e.v.Probe.StartJournal()
 	e.v.Probe.StartLog(false)
 	resp, err := c14upTune(e)
@@ -732,6 +767,15 @@ func c14upKeySet(t *testing.T, r *kit.Result, seed int64, ksi int, tx bool, ks c
 			ops = append(ops, ev)
 		}
 	}
+	e.v.Probe.ClearFaults()
+	byGoroutine := len(convOps) > 0
+	if byGoroutine {
+		r.Count(fmt.Sprintf("untagged_ops_on_mount_storage_not_from_the_conversion_goroutine:tx=%v", tx), len(ops)-len(convOps))
+		ops = convOps
+	} else {
+		r.Note("%s: the conversion goroutine was not recognised by its function name; falling back to untagged operations under the mount's storage prefix", base)
+		r.Count("key_sets_enumerated_by_untagged_ops_fallback", 1)
+	}
 	journal := e.v.Probe.Journal()
 	r.Count(fmt.Sprintf("upgrade_storage_ops:tx=%v", tx), len(ops))
 	if kit.WantCase(base + ":free") {
@@ -742,7 +786,7 @@ func c14upKeySet(t *testing.T, r *kit.Result, seed int64, ksi int, tx bool, ks c
 		c.readBack()
 		r.Eval(1)
 		r.Count("fault_free_upgrades_verified", 1)
-		if len(r.Samples) < 2 {
+		if ksi == 0 {
 			var od []string
 			for _, ev := range ops {
 				od = append(od, ev.Op+" "+c14upKeyClass(e.prefix, ks, ev))
@@ -775,7 +819,7 @@ func c14upKeySet(t *testing.T, r *kit.Result, seed int64, ksi int, tx bool, ks c
 		if !kit.WantCase(id) {
 			continue
 		}
-		c14upFaultCase(t, r, seed, id, ksi, tx, ks, i, ops[i-1].Op+" "+c14upKeyClass(e.prefix, ks, ops[i-1]))
+		c14upFaultCase(t, r, seed, id, ksi, tx, ks, i, byGoroutine, ops[i-1].Op+" "+c14upKeyClass(e.prefix, ks, ops[i-1]))
 		if r.NViolations() > 40 {
 			return
 		}
@@ -822,12 +866,12 @@ func c14upCrashCase(e *c14Env, r *kit.Result, id string, ks c14upKeys, k, total 
 	r.Count("crash_after_switch_verified", 1)
 }
 
-func c14upFaultCase(t *testing.T, r *kit.Result, seed int64, id string, ksi int, tx bool, ks c14upKeys, i int, ref string) {
+func c14upFaultCase(t *testing.T, r *kit.Result, seed int64, id string, ksi int, tx bool, ks c14upKeys, i int, byGoroutine bool, ref string) {
 	e := c14upBoot(t, tx, ks)
 	v := e.v
 	closeAll := func() { v.Close() }
 	defer func() { closeAll() }()
-	match := c14upIsUpgradeOp(e.prefix)
+	match := c14upIsUpgradeOp(e.prefix, byGoroutine)
 	var n atomic.Int64
 	var fired atomic.Bool
 	var hit atomic.Pointer[kit.Event]
